@@ -15,6 +15,7 @@ vars == <<phase, o, k>>
 
 HFD == 5   \* a user-supplied handle lives on descriptor 5
 FFD == 6   \* a user-supplied FILE lives on descriptor 6
+HFDH == 1050   \* ... or, in a crowded caller, on descriptor 1050
 PATHS == "/d/f"
 Extras == <<<<HFD, 0, Name(HFD)>>, <<FFD, 0, Name(FFD)>>, <<9, 0, Name(9)>>, <<11, 1, Name(11)>>, <<30, 0, Name(30)>>, <<31, 0, Name(31)>>>>   \* 31 = the highest descriptor the limit (32) permits
 
@@ -53,6 +54,10 @@ WiringPoints ==
   \cup {Opt(<<R(T_PIPE, 0, 0, ""), b, c>>, NoSh, 2, FALSE, TRUE) : b \in {U, R(T_PARENT, 0, 0, "")}, c \in {U, R(T_STDOUT, 0, 0, "")}}
   \* many inherited descriptors
   \cup {Opt(<<U, U, U>>, NoSh, -1, FALSE, TRUE) @@ [many |-> TRUE], Opt(<<PIPE3, PIPE3, PIPE3>>, NoSh, -1, FALSE, TRUE) @@ [many |-> TRUE]}
+  \* a caller whose descriptor table is full below 1040: every descriptor the library creates, and the handle the caller
+  \* supplies, has a number beyond what a select-style descriptor set can hold
+  \cup {Opt(<<PIPE3, PIPE3, PIPE3>>, NoSh, -1, FALSE, TRUE) @@ [many |-> TRUE, high |-> TRUE],
+         Opt(<<U, R(T_HANDLE, HFDH, 0, ""), R(T_STDOUT, 0, 0, "")>>, NoSh, -1, FALSE, TRUE) @@ [many |-> TRUE, high |-> TRUE]}
   \* a FILE stream that sits on descriptor 0 (for stdin itself, for another stream, and as the shorthand)
   \cup {Opt(<<R(T_FILE, 0, F0, ""), U, U>>, NoSh, -1, FALSE, TRUE), Opt(<<R(T_DEFAULT, 0, F0, ""), U, U>>, NoSh, -1, FALSE, TRUE),
          Opt(<<U, R(T_FILE, 0, F0, ""), U>>, NoSh, -1, FALSE, TRUE), Opt(<<U, U, U>>, [NoSh EXCEPT !.file = F0], -1, FALSE, TRUE)}
@@ -73,14 +78,17 @@ NbPoints ==
 EnvBase == [argvx |-> <<>>, envb |-> 0, envx |-> <<"none">>, penv |-> <<"P=1">>, wd |-> "", prog |-> "/bin/c",
             cwd |-> "/w", cwdlen |-> 0, mask |-> <<>>, disp |-> <<>>, limit |-> 32]
 \* (%XX = a byte that is not printable ASCII, decoded by the harness: tab, newline, DEL, lone continuation / invalid UTF-8, valid UTF-8)
-ArgvXs == {<<>>, <<"a b">>, <<"", "q\"x", "b\\s", "k=v", " ", "-x">>, <<"a", "a", "a">>,
+ArgvXs == {<<>>, <<"a b">>, <<"%*70000*z", "t">>, <<"", "q\"x", "b\\s", "k=v", " ", "-x">>, <<"a", "a", "a">>,
            <<"%FF%FE", "%C3(", "%E2%82%AC", "%09", "a%0Ab", "%7F", "%80x%25">>}
-EnvXs == {<<"none">>, <<>>, <<"A=1">>, <<"B=2", "A=3", "=x", "C", "A=1">>, <<"U=%FF%80", "%C3%A9=%0A">>}
-PEnvs == {<<>>, <<"P=1">>, <<"P=1", "Q=", "A=0">>, <<"P=%FE%09">>, <<"NOEQUALS", "=LEADING", "P=1", "X==">>}   \* (entries a shell would not create are passed on too)
+\* ("%*N*c" = N copies of c, expanded by the harness: an entry of 32 KiB and more is an entry like any other)
+EnvXs == {<<"none">>, <<>>, <<"A=1">>, <<"B=2", "A=3", "=x", "C", "A=1">>, <<"U=%FF%80", "%C3%A9=%0A">>, <<"E=%*32768*y", "F=1">>}
+PEnvs == {<<>>, <<"P=1">>, <<"B=%*40000*x", "P=1">>, <<"P=1", "Q=", "A=0">>, <<"P=%FE%09">>, <<"NOEQUALS", "=LEADING", "P=1", "X==">>}   \* (entries a shell would not create are passed on too)
 Progs == {"/bin/c", "./c", "sub/c", "c", "sub//c"}
 Cwds == {"/w", "/", "/x"}    \* (under /x the relative programs do not exist: the start fails, whatever exists under the CHILD's directory)
 CwdLens == {0, 1, 4093, 4094, 4095, 4096, 4097, 8189, 8190, 8191, 8192, 8193, 4000, 5000}
-Masks == {<<>>, <<15>>, <<13, 17>>, <<1, 2, 3, 13, 14, 15, 17, 20, 34, 64>>}
+\* (4 7 8 11: the signals a fault raises synchronously; the last: what a worker thread that "blocks everything" has blocked)
+Masks == {<<>>, <<15>>, <<13, 17>>, <<1, 2, 3, 13, 14, 15, 17, 20, 34, 64>>, <<4, 7, 8, 11>>,
+          <<1, 2, 3, 4, 5, 6, 7, 8, 10, 11, 12, 13, 14, 15, 16, 17, 18, 20, 21, 22, 23, 24, 25, 26, 27, 28, 29, 30, 31, 34, 35, 64>>}
 Disps == {<<>>, <<<<15, 1>>>>, <<<<2, 2>>, <<13, 1>>, <<17, 2>>>>}
 EnvPoints ==
   LET vary == {[EnvBase EXCEPT !.argvx = a] : a \in ArgvXs}
@@ -90,7 +98,12 @@ EnvPoints ==
          \cup {[EnvBase EXCEPT !.wd = "/d", !.prog = p, !.cwdlen = l] : p \in {"./c", "/bin/c"}, l \in CwdLens}
          \cup {[EnvBase EXCEPT !.mask = ms, !.disp = d, !.wd = w] : ms \in Masks, d \in Disps, w \in {"", "/d"}}
          \cup {[EnvBase EXCEPT !.limit = -1, !.mask = ms] : ms \in {<<>>, <<15>>}}   \* no descriptor limit: start must refuse cleanly
+         \* a working directory that cannot be entered (missing; not a directory): the start fails with the system's error,
+         \* whatever the program, and nothing runs anywhere else instead
+         \cup {[EnvBase EXCEPT !.wd = w, !.prog = p] : w \in {"/nowhere", "/bin/c"}, p \in {"/bin/c", "./c"}}
   IN {Opt(<<U, U, U>>, NoSh, -1, FALSE, TRUE) @@ [x |-> v] : v \in vary}
+     \* ... in fork mode too: the caller's clone that cannot enter the directory reports that and is gone
+     \cup {Opt(<<U, U, U>>, NoSh, -1, TRUE, FALSE) @@ [x |-> [EnvBase EXCEPT !.wd = w]] : w \in {"/nowhere", "/bin/c"}}
      \* a relative redirect path together with a working directory for the child, from a directory too deep to chdir back into:
      \* the file is the one relative to the CALLER's directory, and the caller is still there afterwards
      \cup {Opt(<<U, U, U>>, [NoSh EXCEPT !.path = "rel.out"], -1, FALSE, TRUE) @@ [x |-> [EnvBase EXCEPT !.wd = "/d", !.cwdlen = l]] : l \in {0, 5000}}
@@ -151,8 +164,11 @@ EBADF == -9
 RJ(r) == <<r.t, r.h, r.f, r.p>>
 \* "many": the caller holds a couple of hundred further inheritable descriptors (C11: "any number") under a limit of 512
 Many == "many" \in DOMAIN o
-ExtraList == IF Many THEN Extras \o [i \in 1..230 |-> <<100 + i, 0, "m">>] ELSE Extras
-CfgRec == [e |-> "cfg", cap |-> 8, limit |-> IF Family \in {"env", "faultscen"} THEN X.limit ELSE IF Many THEN 512 ELSE 32,
+High == "high" \in DOMAIN o
+HighFill == SelectSeq([i \in 1..1037 |-> i + 2], LAMBDA f : \A j \in 1..Len(Extras) : Extras[j][1] # f)
+ExtraList == IF High THEN Extras \o [i \in 1..Len(HighFill) |-> <<HighFill[i], 0, "m">>] \o <<<<HFDH, 0, Name(HFDH)>>>>
+             ELSE IF Many THEN Extras \o [i \in 1..230 |-> <<100 + i, 0, "m">>] ELSE Extras
+CfgRec == [e |-> "cfg", cap |-> 8, limit |-> IF Family \in {"env", "faultscen"} THEN X.limit ELSE IF High THEN 1100 ELSE IF Many THEN 512 ELSE 32,
            fds |-> [s \in 1..3 |-> IF k.std[s] THEN 1 ELSE 0], extra |-> ExtraList]
           @@ (IF Family \in {"env", "faultscen", "env2"}
                 THEN [env |-> X.penv, cwd |-> X.cwd, cwdlen |-> X.cwdlen, mask |-> X.mask, disp |-> X.disp,
@@ -175,6 +191,8 @@ Expected ==
   IN CASE v.v = "reject" -> common @@ [r |-> EINVAL, created |-> 0, nfd |-> BaseFds, left |-> 0]
        [] v.v = "late" -> common @@ [r |-> EINVAL, nfd |-> BaseFds, left |-> 0]
        [] v.v = "unspecified" -> [e |-> "ret", mon |-> <<>>]
+       [] v.v = "accept" /\ o.fork /\ Family = "env" /\ X.wd \in {"/nowhere", "/bin/c"} ->
+            common @@ [r |-> IF X.wd = "/nowhere" THEN ENOENT ELSE -20, nfd |-> BaseFds, left |-> 0, pmask |-> X.mask, pdisp |-> X.disp, pcwd |-> X.cwd]
        [] v.v = "accept" /\ o.fork -> [e |-> "ret", mon |-> <<>>, r |-> 1]
        [] v.v = "accept" /\ DeadTarget(v.eff) -> common @@ [r |-> EBADF, nfd |-> BaseFds, left |-> 0]
        [] Family = "env" /\ X.limit = -1 ->
@@ -186,7 +204,9 @@ Expected ==
        [] Family = "faultscen" ->
             common @@ [r |-> 1, cw |-> ChildWiring(v.eff, kk), cx |-> ChildExtra(v.eff), pp |-> ParentEnds(v.eff, kk.hasInput),
                        cnb |-> 0, cexec |-> 1, cmask |-> <<>>, cdisp |-> <<>>, pmask |-> X.mask, pdisp |-> X.disp, pcwd |-> X.cwd,
-                       cargv |-> <<X.prog>> \o X.argvx, cenv |-> ExpEnv, cprog |-> ExpProg]
+                       cargv |-> <<X.prog>> \o X.argvx, cenv |-> ExpEnv, cprog |-> ExpProg, ccwd |-> IF X.wd = "" THEN X.cwd ELSE X.wd]
+       [] Family = "env" /\ X.wd \in {"/nowhere", "/bin/c"} ->
+            common @@ [r |-> IF X.wd = "/nowhere" THEN ENOENT ELSE -20, nfd |-> BaseFds, left |-> 0, pmask |-> X.mask, pdisp |-> X.disp, pcwd |-> X.cwd]
        [] Family = "env" /\ X.cwd = "/x" /\ IsRel(X.prog) ->
             \* the program named relative to the PARENT's directory does not exist (although one of that name exists elsewhere)
             common @@ [r |-> ENOENT, nfd |-> BaseFds, left |-> 0, pmask |-> X.mask, pdisp |-> X.disp, pcwd |-> X.cwd]
